@@ -61,6 +61,7 @@ def _task(arg):
                         use[k.key] = (use[k.key] if isinstance(use[k.key], list) else [use[k.key]]) + [k]
                     else:
                         use[k.key] = k
+    world.lemma_contracts = {k.name: k for k in contracts if k.kind == 'lemma'}
     try:
         r = verify_combo(world, c, combo, use, {})
     except Exception as e:
